@@ -592,7 +592,7 @@ class AnsiString:
                 break
             elif idx == en:
                 if settings.rem:
-                    new_s._fmts[idx - st] = _AnsiSettingPoint(rem=(settings.rem))
+                    new_s._fmts[idx - st] = _AnsiSettingPoint(rem=list(settings.rem))
                 # Complete
                 break
             elif idx == st:
@@ -603,7 +603,7 @@ class AnsiString:
                 if not settings_initialized and previous_settings:
                     new_s._fmts[0] = _AnsiSettingPoint(add=previous_settings)
                 settings_initialized = True
-                new_s._fmts[idx - st] = _AnsiSettingPoint(settings.add, settings.rem)
+                new_s._fmts[idx - st] = _AnsiSettingPoint(list(settings.add), list(settings.rem))
 
             # It's necessary to copy (i.e. call list()) since current_settings ref will change on next loop
             previous_settings = list(current_settings)
